@@ -379,6 +379,64 @@ class NotSerializable:  # a plain class nobody registered (C19: ClassNotDeserial
     pass
 
 
+# unregistered SUBCLASSES of registered types (C19): registration is by exact type, so none of them is deserialisable —
+# a registry that falls back to a registered base would hand back an object of the base type
+class TrackingNumber(uuid.UUID):  # of the type krrood registers itself
+    pass
+
+
+class ExpressNumber(TrackingNumber):  # subclass of a subclass
+    pass
+
+
+class Coin(Money):  # of a harness-registered type
+    pass
+
+
+class RareCoin(Coin):
+    pass
+
+
+class Token(Money2):  # of a registered subclass of a registered type
+    pass
+
+
+class Ratio(Fraction):
+    pass
+
+
+UNREGISTERED_SUBCLASSES = [TrackingNumber, ExpressNumber, Coin, RareCoin, Token, Ratio]
+
+
+# serializer classes that do NOT implement `_from_json` (C19): like the abstract base itself they only inherit
+# SubclassJSONSerializer._from_json, which raises NotImplementedError
+class AbstractNode(SubclassJSONSerializer):
+    pass
+
+
+class AbstractLeaf(AbstractNode):  # abstract intermediate, one level deeper
+    pass
+
+
+class ConcreteOfAbstract(AbstractNode):  # a concrete class below an abstract one: deserialisable again
+    def __eq__(self, other):
+        return type(self) is type(other)
+
+    __hash__ = None
+
+    @classmethod
+    def _from_json(cls, data, **kwargs):
+        _note_dispatch(cls, "_from_json")
+        return cls()
+
+
+ABSTRACT_SERIALIZERS = [AbstractNode, AbstractLeaf]
+
+
+def implements_from_json(cls) -> bool:
+    return getattr(cls._from_json, "__func__", None) is not SubclassJSONSerializer._from_json.__func__
+
+
 NODE_INSTANCE = Node()  # a module attribute that is an instance, not a class (C19)
 T_VAR = typing.TypeVar("T_VAR")  # a module attribute that is a TypeVar (C19)
 
@@ -581,7 +639,8 @@ def probe_attr(m: str, n: str) -> str:
             reg = obj in JSONSerializableTypeRegistry()._deserializers
         except TypeError:
             reg = False
-        return f"(cls {enc_cls(obj)} {'T' if ser else 'F'} {'T' if reg else 'F'})"
+        impl = implements_from_json(obj) if ser else True  # only meaningful for serializer classes
+        return f"(cls {enc_cls(obj)} {'T' if ser else 'F'} {'T' if reg else 'F'} {'T' if impl else 'F'})"
     if isinstance(obj, types.ModuleType):
         k = "module"
     elif isinstance(obj, typing.TypeVar):
